@@ -86,6 +86,20 @@ pub fn exec(op: &str, args: &[&str], out: &mut Out) -> Option<()> {
                 out.check(s.is_empty() && p.parent().is_none(), "C12", || format!("split_back({s:?}) is None"));
             }
         }
+        "fus" => {
+            // From<usize> for PointerBuf: the singleton list holding the decimal spelling
+            let n: usize = args.first()?.parse().ok()?;
+            let p = PointerBuf::from(n);
+            out.observed = hex(p.as_str().as_bytes());
+            let want = format!("/{n}");
+            out.check(p.as_str() == want, "C04,C18", || format!("PointerBuf::from({n}usize) = {:?}, expected {want:?}", p.as_str()));
+            let toks: Vec<String> = p.tokens().map(|t| t.decoded().to_string()).collect();
+            out.check(toks == vec![n.to_string()], "C04", || format!("PointerBuf::from({n}usize).tokens() = {toks:?}"));
+            out.check(p == PointerBuf::from_tokens([n.to_string()]) && p == PointerBuf::from(Token::from(n)), "C04", || {
+                format!("PointerBuf::from({n}usize) differs from from_tokens([n.to_string()]) / From<Token>")
+            });
+            out.check(rfc_ptr(p.as_str().as_bytes()), "C01", || format!("PointerBuf::from({n}usize) holds invalid text"));
+        }
         "wtt" | "wlt" => {
             let s = unhex_str(args.first()?)?;
             let t = unhex_str(args.get(1)?)?;
@@ -141,6 +155,22 @@ pub fn gen(tier: &str, rng: &mut Rng, emit: &mut dyn FnMut(String)) {
             }
         }
     });
+    // From<usize>: every power of ten and its neighbours, the extremes, random values of every width
+    let mut pw: u128 = 1;
+    while pw <= usize::MAX as u128 {
+        for v in [pw - 1, pw, pw + 1] {
+            if v <= usize::MAX as u128 {
+                emit(format!("fus {v}"));
+            }
+        }
+        pw *= 10;
+    }
+    for v in [usize::MAX, usize::MAX - 1, usize::MAX / 2, usize::MAX / 10] {
+        emit(format!("fus {v}"));
+    }
+    for _ in 0..200 {
+        emit(format!("fus {}", rng.next() as usize >> rng.below(64)));
+    }
     let n = if tier == "thorough" { 20_000 } else { 1_000 };
     for i in 0..n {
         let k = if i % 100 == 0 { 2000 } else { rng.below(12) };
